@@ -35,6 +35,7 @@ type peer struct {
 
 	mu       sync.Mutex
 	conns    map[net.Conn]bool
+	connState map[net.Conn]http.ConnState
 	hijacked []net.Conn
 	arrivals chan *arrival
 	gets     chan time.Time // listening GET streams that reached the peer (streamable)
@@ -43,6 +44,45 @@ type peer struct {
 	streamUp chan struct{}
 	release  chan struct{} // closed at the end of the scenario: stalled handlers leave
 	sid      string
+	armed    string // "" | close | reset: what happens to every connection from now on, right at accept (before the request is read)
+}
+
+// faultyListener ends new connections at accept once the peer is armed.
+type faultyListener struct {
+	net.Listener
+	p *peer
+}
+
+func (l faultyListener) Accept() (net.Conn, error) {
+	for {
+		c, err := l.Listener.Accept()
+		if err != nil {
+			return c, err
+		}
+		l.p.mu.Lock()
+		kind := l.p.armed
+		l.p.mu.Unlock()
+		if kind == "" {
+			return c, nil
+		}
+		endConn(c, kind)
+	}
+}
+
+// arm: from now on no request is ever read: new connections end at accept, the idle ones are ended now.
+func (p *peer) arm(kind string) {
+	p.mu.Lock()
+	p.armed = kind
+	var idle []net.Conn
+	for c, st := range p.connState {
+		if st == http.StateIdle {
+			idle = append(idle, c)
+		}
+	}
+	p.mu.Unlock()
+	for _, c := range idle {
+		endConn(c, kind)
+	}
 }
 
 func newPeer(legacy bool) *peer {
@@ -50,7 +90,7 @@ func newPeer(legacy bool) *peer {
 	if err != nil {
 		panic(err)
 	}
-	p := &peer{ln: ln, legacy: legacy, postMode: "ok", conns: map[net.Conn]bool{}, arrivals: make(chan *arrival, 64), gets: make(chan time.Time, 8),
+	p := &peer{ln: ln, legacy: legacy, postMode: "ok", conns: map[net.Conn]bool{}, connState: map[net.Conn]http.ConnState{}, arrivals: make(chan *arrival, 64), gets: make(chan time.Time, 8),
 		streamUp: make(chan struct{}), release: make(chan struct{}), sid: "verif-session"}
 	mux := http.NewServeMux()
 	if legacy {
@@ -63,6 +103,11 @@ func newPeer(legacy bool) *peer {
 	}
 	p.srv = &http.Server{Handler: mux, ErrorLog: hk.QuietStdLog(), ConnState: func(c net.Conn, st http.ConnState) {
 		p.mu.Lock()
+		if st == http.StateClosed || st == http.StateHijacked {
+			delete(p.connState, c)
+		} else {
+			p.connState[c] = st
+		}
 		if st == http.StateClosed {
 			delete(p.conns, c)
 		} else if st != http.StateHijacked {
@@ -70,7 +115,7 @@ func newPeer(legacy bool) *peer {
 		}
 		p.mu.Unlock()
 	}}
-	go p.srv.Serve(ln)
+	go p.srv.Serve(faultyListener{Listener: ln, p: p})
 	return p
 }
 
@@ -143,8 +188,18 @@ func (p *peer) streamable(w http.ResponseWriter, r *http.Request) {
 		w.WriteHeader(http.StatusAccepted)
 	default:
 		c, bw := p.hijack(w)
+		if kind := p.armedKind(); kind != "" {
+			endConn(c, kind) // a connection that was still busy with the handshake when the peer was armed
+			return
+		}
 		p.arrivals <- &arrival{id: m.ID, nonce: m.Params.Arguments.Nonce, conn: c, bw: bw, at: time.Now()}
 	}
+}
+
+func (p *peer) armedKind() string {
+	p.mu.Lock()
+	defer p.mu.Unlock()
+	return p.armed
 }
 
 func (p *peer) legacyStream(w http.ResponseWriter, r *http.Request) {
@@ -172,6 +227,11 @@ func (p *peer) legacyPost(w http.ResponseWriter, r *http.Request) {
 		w.WriteHeader(http.StatusAccepted)
 	default:
 		a := &arrival{id: m.ID, nonce: m.Params.Arguments.Nonce, at: time.Now()}
+		if kind := p.armedKind(); kind != "" {
+			c, _ := p.hijack(w)
+			endConn(c, kind)
+			return
+		}
 		if p.postMode == "hold" {
 			a.conn, a.bw = p.hijack(w)
 		} else {
